@@ -29,8 +29,8 @@ TEXT = {
          "bounds: <=3 partitions over local + 2 remote nodes (2 partitions when remote nodes may have departed: no cached client and no address, so the dial fails); interleavings at synchronisation points"),
  "C18": ("Bounded model checking of the real Allocator loop and cluster.Conn under concurrent catalogue and membership drivers; a watchdog that can only fire when all goroutines are blocked reports a wedge.",
          "bounds: <=2 membership and <=3 catalogue events, 1-3 preemptions; partitions not assigned to the local node (raft loading not exercised); no solver variables occur"),
- "C03": ("Reduced claim: bounded model checking of the raft glue. The real RaftGroup.run loop is fed every Ready shape in the bound; on the recorded trace, for every crash instant, nothing is applied/acknowledged before the Ready was handed to the WAL, snapshots and entries are applied in order exactly once, local snapshots are labelled with the last applied index, a stored snapshot is restored before the first Ready. The end-to-end crash-recovery statement needs etcd/raft's replay and Badger's durability and is not decided.",
-         "bounds: <=2 Readys with <=2 entries, <=2 committed entries, optional received snapshot; etcd/raft and Badger trusted; WAL answers across reopen are C06; no native replay (harness node and recording WAL have no native counterpart in a real cluster)"),
+ "C03": ("Bounded model checking at three levels. (1) Three replicas of a real partition (real index, apply path, proposeAndWaitForCommit, ready loop, badgerWAL) over the real etcd/raft (interpreted) behind the faulty harness network: a sequential client writes through whichever replica leads; one replica - a minority - crashes at any durable-write boundary of its store and restarts on the same database; optional partition, message fault and log compaction; afterwards every replica, the restarted one included, must hold exactly the acknowledged history, optionally plus the write in flight. (2) One node end to end with a crash before/after every Badger flush (harness raft node). (3) The host-loop obligations on every Ready shape: persist before apply/acknowledge, order, snapshot labelling, restore before the first Ready.",
+         "bounds: (1) 2-3 single writes (insert/update/remove) on 1-2 ids, 3 replicas, 1 crash, <=1 partition, <=1 message fault; (2) <=3 writes; (3) <=2 Readys with <=2 entries; Badger is an API-level model (a flushed batch is durable atomically); WAL answers across reopen are C06; not replayed natively (in-memory network, crash hooks and quiescence detection are engine-side)"),
  "C05": ("Bounded model checking at two levels. (1) A 3-replica group of real RaftGroups around the real etcd/raft (interpreted, not stubbed) over real badgerWALs behind a faulty harness network: message loss (with and without error), duplication, reordering, one network partition (leader or follower side), one crash at a durable-write boundary or one graceful restart, optional log compaction so that laggards need a snapshot. Checked: every message's term, every granted vote and every acknowledged entry is durable on the sender when it leaves; applied lists of all replicas (also of restarted ones) are prefixes of one another at every quiescent point; a restarted replica resumes from the log and term it had made durable; after the faults stop a fresh proposal commits everywhere within the tick bound. (2) The host-loop obligations on every Ready shape (harness node), and restart-not-bootstrap through the real Server.setup run twice.",
          "bounds: 3 replicas, <=1 message fault (2 thorough) per history, 1 partition, 1 crash or restart, 2-3 proposals (+2 per round to an isolated stale leader), fault decision points as listed in evidence.outside_bounds; one deterministic goroutine schedule between harness-driven ticks; not replayed natively (in-memory network, crash hooks and quiescence detection are engine-side); Ready-shape harness: <=2 Readys, <=2 messages of 5 types"),
  "C06": ("Bounded symbolic differential checking of the real badgerWAL against etcd's real MemoryStorage over an API-level Badger model: every call sequence in the bound (appends incl. conflicting overwrites, hard state, received snapshots below/at/above the last index, compaction, reopen), terms symbolic through the real raftpb codec, every read compared; second group unaffected; deleted group looks fresh. Counterexamples are replayed on a real in-memory Badger.",
@@ -41,8 +41,8 @@ TEXT = {
          "bounds: logs <=3-4 entries over 2 dataset ids; <=2 datasets with <=2 partitions on <=3 members, one restart; harness raft (one-member groups, or one shared committed log for the zero groups); restart and cluster runs are not replayed natively"),
  "C19": ("Bounded symbolic model checking of the real utils.PriorityQueue + container/heap SSA: all push/pop/peek/reverse histories up to the bound, priorities symbolic; assertions discharged by z3 per path.",
          "bounds: 5 mixed / 6 push-pop operations (7 / 8 thorough) followed by a full drain, one Reverse per history; priorities finite non-NaN"),
- "C20": ("Reduced claim: bounded model checking of a 1-3 member cluster of real Servers over an in-memory transport: joins through the real handshake (stream broken after any message, then retried), removal, leader compaction after any change, restart of any member (with or without its join list): every live member must list exactly the acknowledged members with the announced addresses; plus one member over several lives, and installation of a zero-group snapshot on another member. etcd/raft between propose and commit (elections, raft message loss) is replaced by a shared committed log and is not decided.",
-         "bounds: <=3 members (4 without compaction in the thorough tier), one broken handshake per join, one removal, one restart per history; <=3 lives with <=2-3 joins per life in the single-member harness; not replayed natively"),
+ "C20": ("Bounded model checking of a 1-3 member cluster of real Servers (Server.setup / JoinCluster, NodesManager, the gRPC AddNode handler and client stub, zero-group ready loops, badgerWAL) over an in-memory gRPC transport, at two levels. (1) Over the real etcd/raft (interpreted): joins through any earlier member (a follower forwards the proposal), every raft message may be lost (with or without an error for the sender) or duplicated within a fault budget, the leader may stop right after it acknowledged a join and come back later, the last member may be removed, the leader may compact, any member may restart with its original command line; after the faults stop every live member must list exactly the acknowledged members with the announced addresses and a leader must exist. (2) Over a shared committed log (proposals commit at once): broken join handshakes with retry, compaction after every change, restart with and without the join list, several lives of one member, installation of a zero-group snapshot on another member.",
+         "bounds: <=3 members (4 without compaction in one thorough run of level 2), level 1: <=1 message fault, one leader stop, one restart, deterministic goroutine schedule between harness-driven ticks, RPC deadlines modelled by engine timers; level 2: one broken handshake per join, one removal, one restart per history, <=3 lives with <=2-3 joins; not replayed natively by the driver - the three defects level 1 found were demonstrated natively with real servers over loopback gRPC (findings/C20_*_demo_test.go.txt)"),
  "C13": ("Reduced claim: bounded model checking of the real Hnsw under concurrency at synchronisation-point granularity: one writer with concurrent readers (the server's use), two concurrent inserts, and concurrent insert/remove and remove/remove; every interleaving at lock acquisitions and atomic operations within the preemption bound; no panic, no all-blocked state, set-linearizable outcomes and contents, concurrent search results were live during the search with true scores, C01 guarantees at quiescence. Data races: vector-clock happens-before detection over every heap load/store, map operation and sync/atomic access on every explored schedule (mixed atomic/plain access included), confirmed natively with the Go race detector.",
          "bounds: 2 goroutines (3 in the thorough tier) with one operation each on an index of <=2 items, 3 ids, levels {0,1}, <=2 preemptions (3 thorough), M=1 (more configurations thorough); four entrypoint hand-over races between concurrent writers are known findings (natively demonstrated, findings/C13_stress_test.go.txt)"),
 }
